@@ -283,6 +283,13 @@ def worldOp1 (st : Option World) (op : String) (args tr : List String) : Option 
     match k.toNat? with
     | some k => if w.wr.any (·.1 = k) then (some w, "bad-op") else let (w, s) := tail (removeclient w k); (some w, "ok" ++ s)
     | none => (some w, "bad-op")
+  | "tcpconn", src :: evs, some w =>
+    match parseIPv4 src, parseEvs evs with
+    | some src, some evs =>
+      let w := withOracle w t
+      let (w, s) := tail (tcpConn w src evs)
+      (some w, "tcpconn" ++ s)
+    | _, _ => (some w, "bad-op")
   | "wrstart", [k], some w =>
     match k.toNat? with
     | some k =>
